@@ -210,6 +210,26 @@ func genBadStructured(t *rapid.T) badCase {
 			return badCase{Type: typ, Raw: true, Text: string(out), MustReject: mustReject}
 		}
 	}
+	if str, ok := l.val.(string); ok && strings.Contains(str, "day") && rapid.IntRange(0, 2).Draw(t, "day.tokens") == 0 {
+		// a list of weekday names written the way people write them: ranges in either direction, other separators, abbreviations
+		days := []string{"Monday", "Tuesday", "Wednesday", "Thursday", "Friday", "Saturday", "Sunday"}
+		a, b := days[rapid.IntRange(0, 6).Draw(t, "day.a")], days[rapid.IntRange(0, 6).Draw(t, "day.b")]
+		sep := rapid.SampledFrom([]string{"-", "-", "..", " to ", "/", "–", ":", "+"}).Draw(t, "day.sep")
+		tok := a + sep + b
+		switch rapid.IntRange(0, 4).Draw(t, "day.form") {
+		case 0:
+			tok = strings.ToLower(tok)
+		case 1:
+			tok = a[:3] + sep + b[:3]
+		case 2:
+			tok = "Monday," + tok + ",Sunday"
+		case 3:
+			tok = tok + "," + tok
+		}
+		l.set(tok)
+		out, _ := json.Marshal(root)
+		return badCase{Type: typ, Raw: true, Text: string(out)}
+	}
 	switch rapid.IntRange(0, 3).Draw(t, "replacement") {
 	case 0:
 		nv = rapid.SampledFrom([]any{nil, true, 0.0, -1.0, 1e10, 12.5, "", "x", []any{}, map[string]any{}, []any{1.0, "a"}, map[string]any{"start": 5.0}, "24:01", "2023-02-30", "99", 256.0, 1000000.0, 4294967296.0}).Draw(t, "value")
